@@ -26,7 +26,7 @@ from data_if import DATAInterface
 from udp_link import UDPLink
 from trx_list import TRXList
 
-from gsm_shared import HoppingParams
+from gsm_shared import HoppingParams, GSM_HYPERFRAME
 
 class Transceiver:
 	""" Base transceiver implementation.
@@ -318,12 +318,16 @@ class Transceiver:
 
 		with self._tx_queue_lock:
 			for msg in self._tx_queue:
-				if msg.fn < fn:
-					drop.append(msg)
-				elif msg.fn == fn:
+				# TDMA frame numbers wrap around at GSM_HYPERFRAME, so a
+				# message is ahead of the clock if it takes less than half
+				# a hyperframe to reach its frame number
+				delta = (msg.fn - fn) % GSM_HYPERFRAME
+				if delta == 0:
 					emit.append(msg)
-				else:
+				elif delta < GSM_HYPERFRAME // 2:
 					wait.append(msg)
+				else:
+					drop.append(msg)
 
 			self._tx_queue = wait
 
